@@ -145,7 +145,8 @@ CHECKS = {
           "min(n1,n2) cells; priming (fetch until something is pending - what a lapped seek does after the plain seek) keeps the reported position after a truthful "
           "seek on an intact run (Prime_lemmas.v). The lapped seek itself is modelled (VFile.seek_lap: set-up, lapping data out of the decoder, plain seek, "
           "priming on a fetch that does not span links, lapout) and proved (Lap_lemmas.v) to return 0 and report EXACTLY the target under the executable hypotheses "
-          "lap_hyps, to fail with the plain seek's code where that fails, and to reject what it rejects with the state untouched. Per run: histories of reads, plain "
+          "lap_hyps, to fail with the plain seek's code where that fails, and to reject what it rejects with the state untouched; lapped page and byte seeks report "
+          "the position the plain seek reports wherever that lands on an intact run (priming right after the landing keeps the position). Per run: histories of reads, plain "
           "seeks, half-rate toggles and lapped sample/page/byte seeks replayed on the extracted model (every return code, position, byte cursor, ready state, link, read count), "
           "the theorem's conclusion demanded from the real code where lap_hyps holds; and, on twin handles with identical call histories: same return code and landing as the plain seek, bit-identical from "
           "min(n1,n2) samples on, inside = new*w^2+old*(1-w^2) (bit-exact where the cells were final), EOF-without-lapping only when nothing follows in the "
